@@ -67,9 +67,24 @@ TEXT['C02'] = dict(
     note=BOUNDED_NOTE + 'Found and fixed Grid.getEta (fix: 8880526).',
     technique='bounded run-time checking (exhaustive small box) of the real classes')
 
+TEXT['C03'] = dict(
+    category='other',
+    text='Bounded stand-in only so far: the real LayoutSwapper (scatter, gather and same-distribution branches, redirects) runs on '
+         'the simulated MPI for the groupings used by the driver and their 4-D analogues; after every step each rank block is '
+         'compared with the global field (this also checks that replicas agree and that round trips reproduce the blocks).',
+    note=BOUNDED_NOTE,
+    technique='bounded run-time checking of the real code under simulated MPI')
+TEXT['C04'] = dict(
+    category='other',
+    text='Bounded stand-in only so far: every short operation sequence (exhaustive) and seeded long sequences on the real Grid are '
+         'compared step by step with a single undistributed numpy array, including the refusal rules. The inductive class-invariant '
+         'proof is planned (DESIGN C04).',
+    note=BOUNDED_NOTE,
+    technique='bounded exhaustive/randomised sequence checking of the real class against a global-array model')
+
 NOT_APPLICABLE = {
     'C19': 'compares compiled pyccel artefacts with their Python source: translation validation; no deductive verifier for the '
            'generated Fortran/C is installed (DESIGN.md, C19)',
 }
-for _p in ['C03', 'C04', 'C05', 'C06', 'C08', 'C09', 'C12', 'C13', 'C14', 'C15', 'C17', 'C18']:
+for _p in [ 'C05', 'C06', 'C08', 'C09', 'C12', 'C13', 'C14', 'C15', 'C17', 'C18']:
     NOT_APPLICABLE[_p] = 'check not built yet in this session (planned, see DESIGN.md); not claimed until its contracts discharge'
